@@ -328,10 +328,14 @@ class Abstraction:
 
 
 # ====================================================================== generator
-UNMAPPED_NAMES = ["foo", "Bar", "helper", "_private", "schema_v1", "SCHEMA", "sch\u00e9ma", "x"]
+UNMAPPED_NAMES = ["foo", "Bar", "helper", "_private", "schema_v1", "SCHEMA", "sch\u00e9ma", "x",
+                  "Generated" + "SchemaName" * 24]
 OTHER_MODULES = ["os", "typing", "os.path", "district42.foo", "district42_ext", "d42", "d42.declaration",
                  "collections.abc", "valera.utils", "revolt.errors.extra", "pkg.valera", "blahblah2"]
-ALIASES = ["s", "_x", "sch", "Alias", "v1", "\u03c9"]
+# identifiers have no length limit: aliases and names longer than any line width a formatter might wrap at
+LONG_ALIAS = "alias_" + "very_long_identifier_" * 6            # 132 characters
+LONG_NAME = "Generated" + "SchemaName" * 24                     # 249 characters
+ALIASES = ["s", "_x", "sch", "Alias", "v1", "\u03c9", LONG_ALIAS]
 
 OTHERS = [
     "x = 1", "y: int = 2", "print(x)", "x += 1", "pass", "del x", "assert x, 'msg'", "...",
@@ -701,6 +705,8 @@ class ModGen:
             self.covered.add((m, n))
             out.append(f"from {m} import {n}\n\nvalue = {n}\n")
             out.append(f"import os\nfrom {m} import other_name, {n} as alias_{n[:4]}, {n}\nprint(alias_{n[:4]})")
+            if len(out) % 9 == 0:
+                out.append(f"from {m} import {n} as {LONG_ALIAS}, {LONG_NAME}, {n}\nx = 1; from {m} import {n} as {LONG_ALIAS}_2\n")
         return out
 
 
